@@ -308,8 +308,8 @@ def run(case, sim):
                 continue
             if model.matches(ev, f, "inclusive") != model.matches(ev, f, "strict"):
                 continue        # boundary timestamps excepted
-            if model.matches(ev, f, "strict") != model.matches(ev, f, "strict", bare_as_empty=True):
-                continue        # a bare ["d"] read as "" or not: either reading is legitimate
+            if model.matches(ev, f, "strict") != model.matches(ev, f, "inclusive", bare_as_empty=True):
+                continue        # a bare ["d"] read as "" or not (also combined with a boundary timestamp)
             live = len([s for s in pushes.get((S["c"], S["id"], eid), []) if s > 0]) > 0
             stored = eid in stored_answers[key]
             probes["agreement_pairs"] += 1
